@@ -115,6 +115,12 @@ func VerifC15Source(prog int, bodyLen int) {
 		vAssume(body[i] >= 1 && body[i] < 0x80)
 	}
 	filler := ""
+	if kind >= 4 {
+		// the text of a block comment cannot contain its own terminator
+		for i := 0; i+2 < bodyLen; i++ {
+			vAssume(!(body[i] == ')' && body[i+1] == '-' && body[i+2] == '-'))
+		}
+	}
 	switch kind {
 	case 0:
 		filler = " "
